@@ -24,12 +24,13 @@ Definition run_active_weight (cfg : wcfg) (s : wst) : Q :=
 (* active_set after `if self.class_count[c] == 0: self.active_set.remove(c)` with n the new count *)
 Definition active_after (c n : Z) (a : list Z) : list Z := if Z.eqb n 0 then zremove c a else a.
 
-(* from_2 on the stamper state: class of the packet, now, len(active_set) at the test = the length of the set after the
-   removal, reset_finish = all finish times 0 *)
+(* from_2 on the stamper state: class of the packet, now, len(active_set) when run() resumes (the code itself counts the
+   removal: `self.active_set.remove(c)` makes the length one less for the test that follows), reset_finish = all finish
+   times 0 *)
 Definition wfq_gen_done (cfg : wcfg) (now : Q) (s : wst) (arr : Z) (p : pkt) :=
   let c := wf2c cfg (flow p) in
   gen_WFQ_run_from_2 (wfq_run_fields s arr) c now
-                     (Z.of_nat (length (active_after c (ccount s c - 1) (active s)))) (fun _ _ => 0) (run_active_weight cfg s).
+                     (Z.of_nat (length (active s))) (fun _ _ => 0) (run_active_weight cfg s).
 
 Definition wst_agrees_run (s' : wst) (g : wfq_run_st) : Prop :=
   vtime s' == wr_vtime g /\ last_time s' = wr_last_time g /\
@@ -41,11 +42,30 @@ Definition wfq_asks_child (g : wfq_run_st * list wfq_run_fx * wfq_run_next) : bo
   match g with (_, [FxUnwrap], NxYield RqChild PP2) => true | _ => false end.
 
 (* ---- the bookkeeping after a transmission -------------------------------------------------------------------------- *)
+Lemma zremove_absent (c : Z) (a : list Z) : ~ In c a -> zremove c a = a.
+Proof.
+  induction a as [|x t IH]; intros H; [reflexivity|]. cbn.
+  destruct (Z.eqb_spec x c) as [E|E]; [exfalso; apply H; left; exact E|].
+  cbn. f_equal. apply IH. intros K. apply H. right. exact K.
+Qed.
+
+(* a set (no duplicates) loses exactly one element when a member is removed *)
+Lemma length_zremove (c : Z) (a : list Z) : NoDup a -> zmem c a = true -> length a = S (length (zremove c a)).
+Proof.
+  induction a as [|x t IH]; intros Hn Hm; [discriminate|].
+  inversion Hn as [|y l Hx Ht]; subst. cbn [zmem existsb] in Hm.
+  unfold zremove. cbn [filter]. fold (zremove c t).
+  destruct (Z.eqb_spec x c) as [E|E]; cbn [negb length].
+  - subst x. rewrite (zremove_absent c t Hx). reflexivity.
+  - f_equal. apply IH; [exact Ht|].
+    destruct (Z.eqb_spec c x) as [E'|E']; [exfalso; apply E; symmetry; exact E'|]. exact Hm.
+Qed.
+
 Lemma bridge_wfq_run_done : forall (cfg : wcfg) (now : Q) (s : wst) (arr : Z) (p : pkt) (ws : Z),
   let c := wf2c cfg (flow p) in
   let n := (ccount s c - 1)%Z in
   weight_sum (wweights cfg) (active s) = Some ws -> ws <> 0%Z ->
-  (n = 0%Z -> zmem c (active s) = true) ->
+  (n = 0%Z -> zmem c (active s) = true) -> NoDup (active s) ->
   let g := wfq_gen_done cfg now s arr p in
   exists st', wfq_done cfg now s p = Some st' /\
               wst_agrees_run st' (fst (fst g)) /\
@@ -54,7 +74,7 @@ Lemma bridge_wfq_run_done : forall (cfg : wcfg) (now : Q) (s : wst) (arr : Z) (p
               snd g = NxYield RqStoreGet PP1 /\
               wr_arrivals (fst (fst g)) = arr.
 Proof.
-  intros cfg now s arr p ws c n Hw Hz Hm g. subst g.
+  intros cfg now s arr p ws c n Hw Hz Hm Hnd g. subst g.
   unfold wfq_gen_done, gen_WFQ_run_from_2, wfq_done, update_vtime, run_active_weight, wfq_run_fields, active_after.
   fold c. rewrite Hw. destruct (Z.eqb_spec ws 0) as [E|E]; [contradiction|].
   cbn [wr_vtime wr_last_time wr_arrivals wr_finish_times wr_class_count]. fold n.
@@ -63,8 +83,10 @@ Proof.
               vtime s + (now - last_time s) / ((0 # 1) + inject_Z ws))
     by (rewrite Qred_correct, Qplus_0_l; reflexivity).
   destruct (Z.eqb n 0) eqn:En.
-  - apply Z.eqb_eq in En. rewrite (Hm En).
-    destruct (zremove c (active s)) as [|x l] eqn:Er;
+  - apply Z.eqb_eq in En. rewrite (Hm En). pose proof (length_zremove c (active s) Hnd (Hm En)) as L. rewrite L.
+    destruct (zremove c (active s)) as [|x l] eqn:Er; cbn [length];
+      [ change (Z.of_nat 1 + -1 =? 0)%Z with true
+      | replace (Z.of_nat (S (S (length l))) + -1 =? 0)%Z with false by (symmetry; apply Z.eqb_neq; lia) ];
       (eexists; split; [reflexivity|]); cbn -[Qred Qplus Qdiv Qminus]; repeat split;
       first [reflexivity | exact V | (symmetry; exact Er)].
   - destruct (active s) as [|x l] eqn:Ea;
@@ -104,7 +126,7 @@ Qed.
 Lemma wfq_done_asks_get cfg now s arr p : wfq_asks_get (wfq_gen_done cfg now s arr p) = true.
 Proof.
   unfold wfq_asks_get, wfq_gen_done, gen_WFQ_run_from_2.
-  match goal with |- context [Z.eqb (Z.of_nat ?x) 0] => destruct (Z.eqb (Z.of_nat x) 0) end; reflexivity.
+  repeat match goal with |- context [if ?b then _ else _] => destruct b end; reflexivity.
 Qed.
 
 (* the child has ended: the stamper's books are brought up to date by from_2, then the next get is issued *)
